@@ -53,10 +53,32 @@ class FlagEnv:
       if c == self.cls:
         self.assign[m] = v
     self._host_cache: Dict[str, Optional[bool]] = {}
+    self.atoms: Dict[str, bool] = {}  # canonical source text of a host sub-expression -> assumed truth value
     self.enum_assign: Dict[str, Tuple[str, str]] = {}  # option attribute -> (enum class, member), e.g. integrator -> (IntegratorType, IMPLICIT)
     self.lc = None  # launch context used to resolve scalar kernel parameters to their host binding
 
   # ---- host atoms (canonical python-like text)
+  def unknown_atoms(self, text: str):
+    """sub-expressions (operands of and/or/not, or the whole test) that stay unknown and mention no flag word"""
+    out = []
+    try:
+      node = ast.parse(text, mode="eval").body
+    except SyntaxError:
+      return out
+    stack = [node]
+    while stack:
+      n = stack.pop()
+      if isinstance(n, ast.BoolOp):
+        stack += n.values
+      elif isinstance(n, ast.UnaryOp) and isinstance(n.op, ast.Not):
+        stack.append(n.operand)
+      src = ast.unparse(n)
+      if "disableflags" in src or "enableflags" in src:
+        continue
+      if self._h(n) is U:
+        out.append(src)
+    return out
+
   def host(self, text: str) -> Optional[bool]:
     if text not in self._host_cache:
       try:
@@ -110,6 +132,10 @@ class FlagEnv:
     return U
 
   def _h(self, n) -> Optional[bool]:
+    if self.atoms:
+      v = self.atoms.get(ast.unparse(n))
+      if v is not None:
+        return v
     if isinstance(n, ast.BoolOp):
       vals = [self._h(v) for v in n.values]
       return _and3(vals) if isinstance(n.op, ast.And) else _or3(vals)
